@@ -159,3 +159,120 @@ def validate_obs(traces, jobs=8, batch=150, keep_dir=None):
     if keep_dir is None:
         shutil.rmtree(d, ignore_errors=True)
     return results, states
+
+
+# ---------------------------------------------------------------------------------------------
+# conformance: TraceImpl (the recorded trace replayed through the actions of Bubus.tla)
+# ---------------------------------------------------------------------------------------------
+_H_OPS = {'d', 'y', 's', 'a', 'rb', 'raise', 'ret', 'g'}
+_D_OPS = {'d', 'a', 'y', 's', 'idle', 'g'}
+
+
+def impl_eligible(scn):
+    """The subset of scenarios the detailed model covers so far (grows with the model)."""
+    if any(b.get('parallel') or b.get('wal') for b in scn['buses']):
+        return False
+    if any(h.get('kind', 'async') not in ('async', 'fwd') for h in scn['handlers']):
+        return False
+    if any((t or {}).get('timeout') is not None or (t or {}).get('rtype') for t in scn.get('events', {}).values()):
+        return False
+    for sc in scn['scripts'].values():
+        for ops in sc.values():
+            for op in ops:
+                if op[0] not in _H_OPS or (op[0] == 'd' and len(op) > 3 and op[3]) or (op[0] == 'ret' and op[1] not in ('none', 'exc')):
+                    return False
+    for ops in scn['drivers']:
+        for op in ops:
+            if op[0] not in _D_OPS or (op[0] == 'd' and ((len(op) > 3 and op[3]) or len(op) > 4)) or (op[0] == 'idle' and len(op) > 2 and op[2] is not None):
+                return False
+    return True
+
+
+def impl_trace(tr, tid):
+    cfg = _cfg(tr['scn'])
+    names = [b['name'] for b in cfg['buses']]
+    q = {n: [] for n in names}
+    hist = {n: [] for n in names}
+    snap = []
+    x = {'unf': {n: 0 for n in names}, 'idle': {n: False for n in names}, 'running': {n: False for n in names}, 'semv': 1, 'depth': 0}
+    lines = []
+    for l in tr['lines']:
+        for r in l['evs']:
+            rec = {'st': r['st'], 'sig': r['sig'], 'par': r['par'], 'path': r['path'],
+                   'res': [{'h': y['h'], 'b': y['b'], 'st': y['st'], 'err': y['err'], 'kids': y['kids']} for y in r['res']]}
+            if r['e'] > len(snap):
+                snap.append(rec)
+            else:
+                snap[r['e'] - 1] = rec
+        for n, v in l['hist']:
+            hist[n] = v
+        for n, v in l['q']:
+            q[n] = v
+        if l.get('x'):
+            x = l['x']
+        a = l['a']
+        out = {'a': a}
+        if a in ('ProcB', 'ProcE', 'ProcX'):
+            ok, oa = _by(l['owner'])
+            out.update(b=l['b'], e=l['e'], ok=ok, oa=oa)
+        elif a == 'HOp':
+            out.update(act=l['act'], op=l['op'])
+        elif a in _KEEP:
+            for k in _KEEP[a]:
+                if k in l:
+                    out[k] = l[k]
+            if a == 'HEnter':
+                out['byk'], out['bya'] = _by(l['by'])
+        out['s'] = {'q': dict(q), 'hist': dict(hist), 'snap': list(snap), 'unf': x['unf'], 'idle': x['idle'], 'running': x['running'],
+                    'semv': x['semv'], 'depth': x['depth']}
+        lines.append(out)
+    return {'id': tid, 'cfg': cfg, 'lines': lines}
+
+
+_IMPL_REJ = re.compile(r'<<"IMPL-REJECT", ("?[^,]*"?), "line", (\d+), "((?:[^"\\]|\\.)*)">>')
+_IMPL_ACC = re.compile(r'<<"IMPL-ACCEPTED", (\d+), "of", (\d+)>>')
+
+
+def validate_impl(traces, jobs=8, batch=60, keep_dir=None, timeout=1800):
+    """traces: list of (tid, recorded trace) of impl-eligible scenarios.  Returns (accepted ids, {rejected id: (line, logged line)}, states)."""
+    d = keep_dir or workdir('impl')
+    batches = [traces[i:i + batch] for i in range(0, len(traces), batch)]
+    files = []
+    for i, b in enumerate(batches):
+        f = os.path.join(d, 'impl%d.json' % i)
+        docs = [impl_trace(tr, tid) for tid, tr in b]
+        with open(f, 'w') as fh:
+            json.dump(docs, fh)
+        files.append((f, [t for t, _ in b], max(len(x['lines'][-1]['s']['snap']) for x in docs),
+                      max(sum(1 for l in x['lines'] if l['a'] == 'HEnter') for x in docs), max(len(tr['scn']['drivers']) for _, tr in b)))
+
+    def one(item):
+        f, ids, maxev, maxact, ndrv = item
+        cfgp = f[:-5] + '.cfg'
+        base = open(os.path.join(SPEC, 'TraceImpl.cfg')).read()
+        base = re.sub(r'MaxEv = \d+', 'MaxEv = %d' % max(1, maxev), base)
+        base = re.sub(r'MaxAct = \d+', 'MaxAct = %d' % max(1, maxact), base)
+        base = re.sub(r'NDrv = \d+', 'NDrv = %d' % max(1, ndrv), base)
+        open(cfgp, 'w').write(base)
+        return run_tlc('TraceImpl.tla', cfgp, env={'TRACE_FILE': f, 'JAVA_TOOL_OPTIONS': '-Dtlc2.tool.queue.IStateQueue=StateDeque'},
+                       workers=1, timeout=timeout)
+
+    accepted, rejected, states = set(), {}, 0
+    with ThreadPoolExecutor(max_workers=jobs) as ex:
+        for item, (out, rc, wall) in zip(files, ex.map(one, files)):
+            m = _IMPL_ACC.search(out)
+            if rc != 0 or not m:
+                raise TLCError('TraceImpl failed on %s (rc=%s)\n%s' % (item[0], rc, '\n'.join(out.splitlines()[-40:])))
+            states += stats(out)[1]
+            rej = {}
+            for r in _IMPL_REJ.finditer(out):
+                tid = r.group(1).strip('"')
+                rej[tid] = (int(r.group(2)), json.loads(json.loads('"' + r.group(3) + '"')))
+            for t in item[1]:
+                if str(t) in rej:
+                    rejected[t] = rej[str(t)]
+                else:
+                    accepted.add(t)
+    if keep_dir is None:
+        shutil.rmtree(d, ignore_errors=True)
+    return accepted, rejected, states
